@@ -155,7 +155,7 @@ fn custom_fn(id: u64, sig: usize) -> Box<dyn jmespath::functions::Function> {
 
 /// registry: `<ops>\t<doc>\t<expr hex>,<expr hex>,…` with ops `;`-separated: `r:<namehex>:<id>:<sig>`, `d:<namehex>`, `b`
 /// → one result per query, `|`-separated
-fn stream_registry(fields: &[&str]) -> String {
+fn stream_registry(fields: &[&str], via_clone: bool) -> String {
     guarded(|| {
         let mut rt = jmespath::Runtime::new();
         for op in fields[0].split(';').filter(|o| !o.is_empty()) {
@@ -175,10 +175,20 @@ fn stream_registry(fields: &[&str]) -> String {
             let expr = unhex_str(q);
             outs.push(match rt.compile(&expr) {
                 Err(e) => format!("C {}", err_str(&e)),
-                Ok(c) => match c.search(doc.clone()) {
-                    Ok(r) => format!("ok {}", value_str(&r)),
-                    Err(e) => err_str(&e),
-                },
+                Ok(c) => {
+                    // `registryclone`: the search goes through a clone of the compiled expression, the original is dropped first
+                    let c = if via_clone {
+                        let k = c.clone();
+                        drop(c);
+                        k
+                    } else {
+                        c
+                    };
+                    match c.search(doc.clone()) {
+                        Ok(r) => format!("ok {}", value_str(&r)),
+                        Err(e) => err_str(&e),
+                    }
+                }
             });
         }
         outs.join(" | ")
@@ -279,11 +289,20 @@ fn stream_json(fields: &[&str]) -> String {
                     }
                 },
             };
+            // Variable as a serde `Deserializer`: decoding it into serde_json's generic value must give the same JSON as serialising it
+            let deser = {
+                use serde::Deserialize;
+                match (serde_json::Value::deserialize((*rc).clone()), serde_json::to_value(&*rc)) {
+                    (Ok(a), Ok(b)) => if a == b { "same".to_string() } else { "DIFF".to_string() },
+                    (Err(_), _) => "ERR".to_string(),
+                    _ => "n/a".to_string(),
+                }
+            };
             let reparsed = match Variable::from_json(&printed) {
                 Ok(r) => if value_str(&r) == enc { "same".to_string() } else { format!("DIFF:{}", value_str(&r)) },
                 Err(_) => "ERR".to_string(),
             };
-            format!("ok {}\ttext={}\tid={}\tvalue={}\treparse={}", enc, hex(printed.as_bytes()), id, value, reparsed)
+            format!("ok {}\ttext={}\tid={}\tvalue={}\tdeser={}\treparse={}", enc, hex(printed.as_bytes()), id, value, deser, reparsed)
         }
     })
 }
@@ -476,7 +495,8 @@ fn main() {
             "parse" => stream_parse(&fields),
             "eval" => stream_eval(&fields),
             "errfmt" => stream_errfmt(&fields),
-            "registry" => stream_registry(&fields),
+            "registry" => stream_registry(&fields, false),
+            "registryclone" => stream_registry(&fields, true),
             "json" => stream_json(&fields),
             "serde" => serde_stream::stream_serde(&fields),
             "tojm" => stream_tojm(&fields),
